@@ -505,6 +505,45 @@ def r_fromf64(F, cfg):
     return R
 
 
+REDUCERS = ("Iterator::sum", "Iterator::product", "Iterator::fold", "Iterator::reduce", "Sum::sum", "Product::product",
+            "Iterator::try_fold", "DoubleEndedIterator::rfold")
+
+
+def r_nosum(F, cfg):
+    """No linear reduction of element-type values with an iterator reducer outside the naive Dft.
+
+    A left-to-right sum of n floating-point terms has an error bound that grows like eps*n; the algorithms
+    obtain every output as a fixed-size butterfly sum or from an inner FFT (a log-depth summation tree).
+    An `iter().sum()` / `fold` / `reduce` over a run-time-length buffer of T / Complex<T> (for example taking the
+    DC bin as the plain sum of the inputs) replaces that tree by a chain. Only iterator reducers are covered;
+    a hand-written accumulation loop is not detected (stated in the evidence)."""
+    R = Result("R-NOSUM", "no iterator sum/product/fold/reduce producing an element-type value outside algorithm::dft")
+    n = 0
+    for b in F.bodies.values():
+        root = F.closure_parent(b) or b
+        for bi, t in b.calls():
+            c = F.callee_of(t)
+            if not c or not any(c["p"].endswith(r) for r in REDUCERS):
+                continue
+            n += 1
+            # the type produced: the callee's return place
+            out_t = b.tys(t["d"][0]) if len(t["d"]) == 1 else "?"
+            tys = [F.ts(a) for a in c.get("a", []) if isinstance(a, int)]
+            elemish = lambda x: ("Complex<" in x) or x in ("f32", "f64", "T", "A", "S")
+            if not (elemish(out_t) or any(elemish(x) for x in tys[1:])):
+                R.ok({"fn": b.name, "reducer": c["p"].rsplit("::", 1)[-1], "produces": out_t}, nontrivial=False, sample_cap=6)
+                continue
+            if root.name.startswith("algorithm::dft::"):
+                R.ok({"fn": b.name, "reducer": c["p"].rsplit("::", 1)[-1], "allowed": "naive Dft (length <= 1 in every plan, R-DFTBOUND)"}, nontrivial=True)
+                continue
+            R.violation("nosum:%s:%s" % (b.name, c["p"].rsplit("::", 1)[-1]), b.where(t),
+                        "%s reduces element-type values with %s (produces %s): a linear summation chain whose rounding error grows like eps*n"
+                        % (b.name, c["p"].rsplit("::", 1)[-1], out_t))
+    R.metric("reducer_calls", n)
+    R.instances += 1
+    return R
+
+
 # trait methods the portable generic code may invoke on the element type T / Complex<T>
 RING_TRAITS = {
     "std::ops::Add": "ring", "std::ops::Sub": "ring", "std::ops::Mul": "ring", "std::ops::Neg": "ring",
